@@ -12,4 +12,6 @@ require (
 	pgregory.net/rapid v1.3.0
 )
 
+require pault.ag/go/topsort v0.1.1 // indirect
+
 replace pault.ag/go/debian => /repo
